@@ -479,82 +479,122 @@ fn budget_for(case: &Case, max_iter: usize) -> usize {
     100 * (case.n + 2) * (max_iter + 1)
 }
 
-/// One call of the real solver from `guess` with iteration limit `max_iter`.
+/// One call of the real solver from `guess` with iteration limit `max_iter` on a
+/// freshly constructed Newton object.
 fn solve_once(case: &Case, guess: &[f64], max_iter: usize) -> Solved {
-    let rec = RefCell::new(Rec { budget: budget_for(case, max_iter), ..Default::default() });
+    solve_session(case, &[(guess.to_vec(), max_iter)]).pop().unwrap()
+}
+
+fn fresh_rec(case: &Case, max_iter: usize) -> Rec {
+    Rec { budget: budget_for(case, max_iter), ..Default::default() }
+}
+
+fn finish(rec: &RefCell<Rec>, result: Result<(bool, Vec<f64>), String>, params_intact: bool) -> Solved {
+    let r = rec.replace(Rec::default());
+    Solved { result, f_calls: r.f_calls, j_calls: r.j_calls, hist: r.hist.finish(), fired: r.fired, params_intact }
+}
+
+/// A session: ONE Newton object, reconfigured through its public setters
+/// (`iterations`, `guess`) before each of the planned solver calls. The script
+/// (evaluation counters, history) is rewound before every call.
+fn solve_session(case: &Case, plan: &[(Vec<f64>, usize)]) -> Vec<Solved> {
+    let rec = RefCell::new(Rec::default());
     let n = case.n;
-    let mut params_intact = true;
-    let result: Result<(bool, Vec<f64>), String> = match case.entry {
+    let mut out = Vec::with_capacity(plan.len());
+    match case.entry {
         Entry::F64 => {
             let f = |x: f64| -> f64 { env_f(case, &rec, &[x])[0] };
-            let mut nw = Newton::<f64>::new(guess[0]);
+            let mut nw = Newton::<f64>::new(plan[0].0[0]);
             nw.tolerance(case.tol);
             nw.delta(case.delta);
-            nw.iterations(max_iter);
-            nw.guess(guess[0]);
-            let before = nw.parameters();
-            let r = catch(|| nw.solve(&f));
-            let after = nw.parameters();
-            params_intact = before.0.to_bits() == after.0.to_bits() && before.1.to_bits() == after.1.to_bits() && before.2 == after.2 && before.3.to_bits() == after.3.to_bits()
-                && after.0.to_bits() == case.tol.to_bits() && after.1.to_bits() == case.delta.to_bits() && after.2 == max_iter && after.3.to_bits() == guess[0].to_bits();
-            r.map(|res| match res {
-                Ok(x) => (true, vec![x]),
-                Err(x) => (false, vec![x]),
-            })
+            for (step, (guess, max_iter)) in plan.iter().enumerate() {
+                if step == 0 || plan[step - 1] != plan[step] {
+                    nw.iterations(*max_iter);
+                    nw.guess(guess[0]);
+                }
+                rec.replace(fresh_rec(case, *max_iter));
+                let before = nw.parameters();
+                let r = catch(|| nw.solve(&f));
+                let after = nw.parameters();
+                let intact = before.0.to_bits() == after.0.to_bits() && before.1.to_bits() == after.1.to_bits() && before.2 == after.2 && before.3.to_bits() == after.3.to_bits()
+                    && after.0.to_bits() == case.tol.to_bits() && after.1.to_bits() == case.delta.to_bits() && after.2 == *max_iter && after.3.to_bits() == guess[0].to_bits();
+                let res = r.map(|res| match res {
+                    Ok(x) => (true, vec![x]),
+                    Err(x) => (false, vec![x]),
+                });
+                out.push(finish(&rec, res, intact));
+            }
         }
         Entry::C64 => {
             let f = |z: Cmplx| -> Cmplx {
                 let o = env_f(case, &rec, &[z.real, z.imag]);
                 Cmplx::new(o[0], o[1])
             };
-            let mut nw = Newton::<Cmplx>::new(Cmplx::new(guess[0], guess[1]));
+            let mut nw = Newton::<Cmplx>::new(Cmplx::new(plan[0].0[0], plan[0].0[1]));
             nw.tolerance(case.tol);
             nw.delta(case.delta);
-            nw.iterations(max_iter);
-            nw.guess(Cmplx::new(guess[0], guess[1]));
-            let before = nw.parameters();
-            let r = catch(|| nw.solve(&f));
-            let after = nw.parameters();
-            params_intact = before.0.to_bits() == after.0.to_bits() && before.1.to_bits() == after.1.to_bits() && before.2 == after.2
-                && before.3.real.to_bits() == after.3.real.to_bits() && before.3.imag.to_bits() == after.3.imag.to_bits()
-                && after.0.to_bits() == case.tol.to_bits() && after.1.to_bits() == case.delta.to_bits() && after.2 == max_iter
-                && after.3.real.to_bits() == guess[0].to_bits() && after.3.imag.to_bits() == guess[1].to_bits();
-            r.map(|res| match res {
-                Ok(z) => (true, vec![z.real, z.imag]),
-                Err(z) => (false, vec![z.real, z.imag]),
-            })
+            for (step, (guess, max_iter)) in plan.iter().enumerate() {
+                if step == 0 || plan[step - 1] != plan[step] {
+                    nw.iterations(*max_iter);
+                    nw.guess(Cmplx::new(guess[0], guess[1]));
+                }
+                rec.replace(fresh_rec(case, *max_iter));
+                let before = nw.parameters();
+                let r = catch(|| nw.solve(&f));
+                let after = nw.parameters();
+                let intact = before.0.to_bits() == after.0.to_bits() && before.1.to_bits() == after.1.to_bits() && before.2 == after.2
+                    && before.3.real.to_bits() == after.3.real.to_bits() && before.3.imag.to_bits() == after.3.imag.to_bits()
+                    && after.0.to_bits() == case.tol.to_bits() && after.1.to_bits() == case.delta.to_bits() && after.2 == *max_iter
+                    && after.3.real.to_bits() == guess[0].to_bits() && after.3.imag.to_bits() == guess[1].to_bits();
+                let res = r.map(|res| match res {
+                    Ok(z) => (true, vec![z.real, z.imag]),
+                    Err(z) => (false, vec![z.real, z.imag]),
+                });
+                out.push(finish(&rec, res, intact));
+            }
         }
         Entry::VecFd | Entry::VecJac => {
             let f = |x: Vec64| -> Vec64 { Vector::<f64>::create(env_f(case, &rec, &x.vec)) };
             let j = |x: Vec64| -> Mat64 { to_mat(n, &env_j(case, &rec, &x.vec)) };
-            let mut nw = Newton::<Vec64>::new(Vector::<f64>::create(guess.to_vec()));
+            let mut nw = Newton::<Vec64>::new(Vector::<f64>::create(plan[0].0.clone()));
             nw.tolerance(case.tol);
             nw.delta(case.delta);
-            nw.iterations(max_iter);
-            nw.guess(Vector::<f64>::create(guess.to_vec()));
-            let r = if case.entry == Entry::VecFd { catch(|| nw.solve(&f)) } else { catch(|| nw.solve_jacobian(&f, &j)) };
-            r.map(|res| match res {
-                Ok(x) => (true, x.vec.clone()),
-                Err(x) => (false, x.vec.clone()),
-            })
+            for (step, (guess, max_iter)) in plan.iter().enumerate() {
+                if step == 0 || plan[step - 1] != plan[step] {
+                    nw.iterations(*max_iter);
+                    nw.guess(Vector::<f64>::create(guess.clone()));
+                }
+                rec.replace(fresh_rec(case, *max_iter));
+                let r = if case.entry == Entry::VecFd { catch(|| nw.solve(&f)) } else { catch(|| nw.solve_jacobian(&f, &j)) };
+                let res = r.map(|res| match res {
+                    Ok(x) => (true, x.vec.clone()),
+                    Err(x) => (false, x.vec.clone()),
+                });
+                out.push(finish(&rec, res, true));
+            }
         }
         Entry::CVecFd | Entry::CVecJac => {
             let f = |z: Vector<Cmplx>| -> Vector<Cmplx> { to_cvec(&env_f(case, &rec, &from_cvec(&z))) };
             let j = |z: Vector<Cmplx>| -> Matrix<Cmplx> { to_cmat(n, &env_j(case, &rec, &from_cvec(&z))) };
-            let mut nw = Newton::<Vector<Cmplx>>::new(to_cvec(guess));
+            let mut nw = Newton::<Vector<Cmplx>>::new(to_cvec(&plan[0].0));
             nw.tolerance(case.tol);
             nw.delta(case.delta);
-            nw.iterations(max_iter);
-            nw.guess(to_cvec(guess));
-            let r = if case.entry == Entry::CVecFd { catch(|| nw.solve(&f)) } else { catch(|| nw.solve_jacobian(&f, &j)) };
-            r.map(|res| match res {
-                Ok(x) => (true, from_cvec(&x)),
-                Err(x) => (false, from_cvec(&x)),
-            })
+            for (step, (guess, max_iter)) in plan.iter().enumerate() {
+                if step == 0 || plan[step - 1] != plan[step] {
+                    nw.iterations(*max_iter);
+                    nw.guess(to_cvec(guess));
+                }
+                rec.replace(fresh_rec(case, *max_iter));
+                let r = if case.entry == Entry::CVecFd { catch(|| nw.solve(&f)) } else { catch(|| nw.solve_jacobian(&f, &j)) };
+                let res = r.map(|res| match res {
+                    Ok(x) => (true, from_cvec(&x)),
+                    Err(x) => (false, from_cvec(&x)),
+                });
+                out.push(finish(&rec, res, true));
+            }
         }
-    };
-    let r = rec.into_inner();
-    Solved { result, f_calls: r.f_calls, j_calls: r.j_calls, hist: r.hist.finish(), fired: r.fired, params_intact }
+    }
+    out
 }
 
 // ------------------------------------------------------------------ oracles helpers
@@ -1043,9 +1083,23 @@ impl Prop for C17 {
             stats.count("probe.dimension_6_plus");
         }
 
-        // ---- main call + replay call (oracle 5)
-        let s1 = solve_once(case, &case.guess, k);
-        let s2 = solve_once(case, &case.guess, k);
+        // ---- main call, then `repeats` further calls ON THE SAME OBJECT with the script rewound
+        // (oracle 5). repeats is derived from the case, not drawn: 2..=4, up to 12 for in-basin runs.
+        let mut rh = Fnv::new();
+        rh.u64(k as u64);
+        rh.f64(case.tol);
+        for g in &case.guess {
+            rh.f64(*g);
+        }
+        let repeats = if case.cfg == Cfg::InBasin { 2 + (rh.finish() % 11) as usize } else { 2 + (rh.finish() % 3) as usize };
+        let plan: Vec<(Vec<f64>, usize)> = (0..repeats).map(|_| (case.guess.clone(), k)).collect();
+        let mut session = solve_session(case, &plan);
+        let later: Vec<Solved> = session.split_off(1);
+        let s1 = session.pop().unwrap();
+        let s2 = later[0].clone();
+        for s in &later[1..] {
+            stats.steps += (s.f_calls + s.j_calls) as u64;
+        }
         stats.steps += (s1.f_calls + s1.j_calls + s2.f_calls + s2.j_calls) as u64;
         stats.log.u64(s1.hist);
         stats.log.u64(s1.f_calls as u64);
@@ -1126,13 +1180,19 @@ impl Prop for C17 {
         if !s1.params_intact || !s2.params_intact {
             return violation("state-mutated", &format!("{en}:state"), format!("{}: parameters() changed across solve (or do not equal what was configured)", e.name()));
         }
-        if !same_result(&s1.result, &s2.result) || s1.hist != s2.hist || s1.f_calls != s2.f_calls || s1.j_calls != s2.j_calls {
-            return violation(
-                "replay-differs",
-                &format!("{en}:replay"),
-                format!("{}: two calls with the script rewound differ: {} ({} evals) vs {} ({} evals)", e.name(), fmt_res(&s1.result), s1.f_calls, fmt_res(&s2.result), s2.f_calls),
-            );
+        for (idx, s) in later.iter().enumerate() {
+            if !s.params_intact {
+                return violation("state-mutated", &format!("{en}:state"), format!("{}: parameters() changed across solve (call {})", e.name(), idx + 2));
+            }
+            if !same_result(&s1.result, &s.result) || s1.hist != s.hist || s1.f_calls != s.f_calls || s1.j_calls != s.j_calls {
+                return violation(
+                    "replay-differs",
+                    &format!("{en}:replay"),
+                    format!("{}: call 1 and call {} on the same object (script rewound) differ: {} ({} evals) vs {} ({} evals)", e.name(), idx + 2, fmt_res(&s1.result), s1.f_calls, fmt_res(&s.result), s.f_calls),
+                );
+            }
         }
+        stats.add("repeat_calls_on_same_object", later.len() as u64);
 
         // ---- config A: must succeed, near the root
         let scale = scale_of(case);
@@ -1175,9 +1235,20 @@ impl Prop for C17 {
 
         // ---- oracle 3: failure carries the last iterate (restart composition)
         if !index_faults && !ok1 && k <= 50 {
-            let cont = solve_once(case, &x1, 1);
-            let longer = solve_once(case, &case.guess, k + 1);
-            stats.steps += (cont.f_calls + cont.j_calls + longer.f_calls + longer.j_calls) as u64;
+            // one object, reconfigured through its setters between the calls ...
+            let mut sess = solve_session(case, &[(case.guess.clone(), k), (x1.clone(), 1), (case.guess.clone(), k + 1)]);
+            let longer = sess.pop().unwrap();
+            let cont = sess.pop().unwrap();
+            // ... must behave like freshly constructed objects
+            let cont_fresh = solve_once(case, &x1, 1);
+            stats.steps += (cont.f_calls + cont.j_calls + longer.f_calls + longer.j_calls + cont_fresh.f_calls + cont_fresh.j_calls) as u64;
+            if !same_result(&cont.result, &cont_fresh.result) || cont.hist != cont_fresh.hist {
+                return violation(
+                    "replay-differs",
+                    &format!("{en}:reuse"),
+                    format!("{}: an object that already ran solve(budget {k}) and was then given guess {x1:?} and budget 1 answers {}, a fresh object with the same configuration answers {}", e.name(), fmt_res(&cont.result), fmt_res(&cont_fresh.result)),
+                );
+            }
             if cont.result.is_ok() && longer.result.is_ok() && !same_result(&cont.result, &longer.result) {
                 return violation(
                     "stale-iterate",
